@@ -198,6 +198,10 @@ def pool_deck(draw, tier, homogeneous=False):
     text = mr.render(deck, expr_style=case.get('style'))
     out = {'text': text, 'argv': mr.argv_of(deck),
            'labels': case['labels']}
+    if deck['transforms'] or any(c.get('trcl') or (c.get('fill') or {}).get('tr')
+                                 for c in deck['cells']):
+        out['sibling_text'] = mr.render(sibling_deck(deck),
+                                        expr_style=case.get('style'))
     # a fault-injected sibling for convert_failing
     sites = [s for s in c17.fault_sites(deck)
              if s[0] in ('surface:unknown-mnemonic', 'facet:index-too-large',
@@ -215,6 +219,40 @@ def pool_deck(draw, tier, homogeneous=False):
     return out
 
 
+def sibling_deck(entry_deck):
+    """A deck that differs from the given one only by perturbations far
+    below any sensible tolerance (rotations turned by 1e-8 rad, lengths
+    scaled by 1 + 1e-10): state that survives a conversion under a lossy key
+    shows up when both are converted in one interpreter."""
+    import copy
+    import math
+    import numpy as np
+    deck = copy.deepcopy(entry_deck)
+    ang = 1e-8
+    Rz = np.array([[math.cos(ang), -math.sin(ang), 0.0],
+                   [math.sin(ang), math.cos(ang), 0.0], [0.0, 0.0, 1.0]])
+
+    def nudge(spec):
+        if spec is None or spec.get('full') is None or spec.get('mask'):
+            return
+        vals = spec['full']
+        if spec['star']:
+            vals = [math.cos(math.radians(v)) for v in vals]
+            spec['star'] = False
+        B = np.array(vals).reshape(3, 3) @ Rz
+        spec['full'] = [float(v) for v in B.reshape(9)]
+    for t in deck['transforms']:
+        nudge(t['spec'])
+    for c in deck['cells']:
+        for ref in (c.get('trcl'), (c.get('fill') or {}).get('tr')):
+            if ref and 'inline' in ref:
+                nudge(ref['inline'])
+    for s_ in deck['surfaces']:
+        if s_['kind'].lower() != 'arb':
+            s_['params'] = [v * (1.0 + 1e-10) for v in s_['params']]
+    return deck
+
+
 def make_machine(tier, sink):
     class ConversionHistory(RuleBasedStateMachine):
         def __init__(self):
@@ -225,11 +263,18 @@ def make_machine(tier, sink):
         @initialize(first=pool_deck(tier, homogeneous=True),
                     rest=st.lists(pool_deck(tier), min_size=2, max_size=4))
         def setup(self, first, rest):
-            decks = [first] + rest
+            decks = []
+            for dck in [first] + rest:
+                decks.append({k_: v_ for k_, v_ in dck.items()
+                              if k_ != 'sibling_text'})
+                if dck.get('sibling_text'):
+                    # the nearly identical sibling is a deck of its own
+                    decks.append({'text': dck['sibling_text'],
+                                  'argv': dck['argv'], 'labels': ['sibling']})
             self.world = World(decks)
             sink['worlds'].append(self.world)
 
-        @rule(i=st.integers(0, 4), oi=st.integers(0, len(OPTION_SETS) - 1))
+        @rule(i=st.integers(0, 9), oi=st.integers(0, len(OPTION_SETS) - 1))
         def convert(self, i, oi):
             i %= len(self.world.decks)
             self.world.do_convert(i, oi)
